@@ -27,7 +27,7 @@ ASSUMPTIONS = ["distance = lower bound from the orthogonality residual (|R'R-I|/
                "an invalid 4x4 array given to UnitQuaternion is also a legal N x 4 array of quaternions: there the oracle is 'raises or holds unit quaternions'"]
 
 CLASSES = ["SO2", "SE2", "SO3", "SE3", "UQ3", "UQ4", "Twist2", "Twist3", "SE3.SO3"]
-DEFECTS = ["none", "noise", "reflect", "swap", "scale", "wholescale", "lastrow", "lastrow_pattern", "zerorow", "algebra", "shape", "inplace"]
+DEFECTS = ["none", "noise", "reflect", "swap", "scale", "tilt", "wholescale", "lastrow", "lastrow_pattern", "zerorow", "algebra", "shape", "inplace"]
 CONTAINERS = ["bare", "list1", "tuple1", "valid_bad", "bad_valid", "valid_bad_valid"]
 REJECT = 1.05e-6      # the statement: every array whose distance from the group exceeds 1e-6 is rejected
 ACCEPT = 2e-15       # (distance lower bound, see group_distance) values produced by primitive constructors are accepted
@@ -70,7 +70,7 @@ def gen_pred_cells(tier):
     m3 = {"rot": {"axis": [0.3, -0.5, 0.8], "angle": 1.1, "via": "rod"}, "t": [1.0, -2.0, 3.0]}
     m2 = {"angle": 0.7, "t": [1.0, -2.0]}
     pat = [0.31, -0.72, 0.55, 0.18, -0.93, 0.44, 0.67, -0.25, 0.81, -0.36, 0.59, 0.12, -0.48, 0.77, -0.64, 0.29]
-    for d in ["none", "noise", "reflect", "swap", "scale", "wholescale", "lastrow", "lastrow_pattern", "zerorow"]:
+    for d in ["none", "noise", "reflect", "swap", "scale", "tilt", "wholescale", "lastrow", "lastrow_pattern", "zerorow"]:
         for mag in (0.0, 3e-6, 1e-4, 0.3):
             for i in range(4):
                 for src in ("ref", "lib"):
@@ -88,7 +88,7 @@ def s_pred():
         "kind": st.just("pred"), "m3": gens.pose3(t_hi=3, lo_exp=-12), "m2": gens.pose2(t_hi=3),
         "mag": st.one_of(gens.logmag(-12, 0), gens.logmag(-5, 0), st.just(0.0)),
         "pattern": st.lists(gens.fl(-1, 1), min_size=16, max_size=16),
-        "defect": st.sampled_from(["none", "noise", "reflect", "swap", "scale", "wholescale", "lastrow", "lastrow_pattern", "zerorow"]),
+        "defect": st.sampled_from(["none", "noise", "reflect", "swap", "scale", "tilt", "wholescale", "lastrow", "lastrow_pattern", "zerorow"]),
         "i": st.integers(0, 3), "j": st.integers(0, 3),
         "vec": st.lists(st.one_of(gens.fl(-1, 1), st.just(0.0)), min_size=2, max_size=6),
         "vmag": st.one_of(gens.logmag(-6, 6), st.just(1.0)),
@@ -155,6 +155,17 @@ def corrupt(M, case, dim, se):
         return M, True
     if d == "scale":
         M[:n, :n] *= (1.0 + mag)
+        return M, True
+    if d == "tilt":
+        # one row (or column) turned towards another by the angle mag, keeping its length: all rows (columns) stay unit
+        # vectors, the determinant stays positive, only the right angle between two of them is lost
+        if i == j:
+            j = (i + 1) % n
+        Rb = M[:n, :n]
+        if case["i"] % 2:
+            Rb[i, :] = math.cos(mag) * Rb[i, :] + math.sin(mag) * Rb[j, :]
+        else:
+            Rb[:, i] = math.cos(mag) * Rb[:, i] + math.sin(mag) * Rb[:, j]
         return M, True
     if d == "wholescale":
         # the whole array times a factor (homogeneous scale): 2, 1/2, 1 + mag, and -1 where that keeps the determinant positive
